@@ -118,22 +118,33 @@ theorem C10_transform_refuted : ¬ C10_transform_stmt := by
       simp only at c1 c3
       omega
 
-/-- **C10 (transform, keyed/default comparison, lists of records).**  For `compare` without a composite key
-(`cfg.direct = false`, `cfg.ck` empty), `LeafTransform cfg`, every other option and flag record, on trees all of
-whose list items are records (`recOnly`: every item of every list, at every depth, is a dictionary — then every
-item has the key `''`, the n-th record of one list meets the n-th record of the other and the `str()`-keying of
-the untransformed values, finding C10-a, plays no role): the run with `transform` on `(a, b)` and the run without
-it on the mapped trees raise the same exception or return results of the same shape. -/
-theorem C10_transform_keyed_records (cfg : Cfg) (hd : cfg.direct = false) (hck : cfg.ck.pats.isEmpty = true)
+/-- **C10 (transform, keyed/default comparison, lists of records and lists of leaves).**  For `compare` without a
+composite key (`cfg.direct = false`, `cfg.ck` empty), `LeafTransform cfg`, every other option and flag record, on
+trees every list of which — at every depth — holds records only or leaves only (`recOnly`; a leaf is `None` or a
+scalar): the run with `transform` on `(a, b)` and the run without it on the mapped trees raise the same exception or
+return results of the same shape.  In a list of records every item has the key `''` and the n-th record meets the
+n-th record; in a list of leaves (fix C10-a) an item is keyed by the JSON text of its TRANSFORMED value — the key
+the same item has in the mapped tree —, so both runs pair the same positions, `[i]<>[j]` included, and two leaves
+meet iff their transformed values have the same type and value. -/
+theorem C10_transform_keyed (cfg : Cfg) (hd : cfg.direct = false) (hck : cfg.ck.pats.isEmpty = true)
     (hl : LeafTransform cfg) (a b : Val) (ha : recOnly a = true) (hb : recOnly b = true) :
     TrERel (compareTop cfg a b) (compareTop (noTransf cfg) (mapT cfg [] a) (mapT cfg [] b)) :=
   compareTop_tr_keyed cfg hd hck hl a b ha hb
 
 /-- … in particular the verdict is the verdict on the mapped trees -/
-theorem C10_transform_keyed_records_verdict (cfg : Cfg) (hd : cfg.direct = false) (hck : cfg.ck.pats.isEmpty = true)
+theorem C10_transform_keyed_verdict (cfg : Cfg) (hd : cfg.direct = false) (hck : cfg.ck.pats.isEmpty = true)
     (hl : LeafTransform cfg) (a b : Val) (ha : recOnly a = true) (hb : recOnly b = true) :
     verdict (compareTop cfg a b) = verdict (compareTop { cfg with tr := [] } (mapT cfg [] a) (mapT cfg [] b)) :=
   transform_keyed_verdict cfg hd hck hl a b ha hb
+
+/-- non-vacuity for lists of leaves: `{'a': ['A', 'b', 1]}` vs `{'a': [1, 'B', 'a', 'c']}` under `('//a', lower)`:
+the three items meet across positions, `'c'` is unique -/
+def trLeafA : Val := .dict .n0 [(['a'], .list .n0 [.str ['A'], .str ['b'], .int 1])]
+def trLeafB : Val := .dict .n0 [(['a'], .list .n0 [.int 1, .str ['B'], .str ['a'], .str ['c']])]
+example : recOnly trLeafA = true ∧ recOnly trLeafB = true ∧ recOnly trCexA = true := by decide
+example : (compareTop trCexCfg trLeafA trLeafB).map (fun r => (r.diffs, r.otherUnique.map (·.path)))
+    = .ok (1, [[.key ['a'], .idx 3]]) := by decide
+example : (compareTop { trCexCfg with tr := [] } trLeafA trLeafB).map (·.diffs) = .ok 5 := by decide
 
 /-- with a composite key the keyed statement fails even on lists of records: the key is built from the
 TRANSFORMED field, which must be a `str` — the identity function on the `int` key field `id` raises `TypeError`
